@@ -379,3 +379,171 @@ Example C01_example_carrier :
   (forall a b:Qc, omul QcOps a b = o0 QcOps -> a = o0 QcOps \/ b = o0 QcOps) /\ o1 QcOps <> o0 QcOps /\
   (forall a b:Qc, oadd QcOps (omul QcOps a a) (omul QcOps b b) = o0 QcOps -> a = o0 QcOps).
 Proof. exact (conj qc_integral (conj qc_one_neq_zero qc_formally_real)). Qed.
+
+(* =========================================================================================================
+   (14) COMPOSITION with the extraction routine (property C11, Model/M_mpe.v: mpe_explicit = SSI_mpe / pLSCF_mpe with an
+   explicit order): "... and extracting modes at that order returns those values".
+   Tables as in C11: Fn[row][order-column] : option Q (None = NaN), Pay = everything else moved with a pole.  Lemmas in
+   Proofs/P_compose.v, proved from C11's mpe_explicit_total / mpe_whole / mpe_only_if_close: the row kept for a request is
+   THE first argmin of |column - f| (distance 0 is minimal) and np.isclose(f, f) holds for every rtol >= 0.
+   The names of M_mpe are written qualified because Carrier.tab / M_realise.rect are in use above. *)
+From PyOMA.Proofs Require Import P_compose.
+Local Open Scope Q_scope.
+
+(* (14a) EXACT identification: column c holds for every request f a retained cell whose frequency equals f (the exact-arithmetic
+   statement of C01).  Then for every rtol >= 0 the routine raises nothing and returns one pair per request, in request order:
+   the frequency (== f) and the payload of the FIRST row of column c that holds f. *)
+Theorem C01_extract_returns_true_modes : forall (P:Type) n m (Fn:M_mpe.tab) (Pay:list (list P)) c freq rtol,
+  M_mpe.rect n m Fn -> M_mpe.rect n m Pay -> 0 <= rtol ->
+  Forall (fun f => exists r g, M_mpe.cell Fn r c = Some (Some g) /\ g == f) freq ->
+  exists vals, M_mpe.mpe_explicit Fn Pay freq (M_mpe.OInt c) rtol = M_mpe.Ok (vals, M_mpe.OutInt c) /\
+    Forall2 (fun f vp => fst vp == f /\
+               exists r, M_mpe.cell Fn r c = Some (Some (fst vp)) /\ M_mpe.cell Pay r c = Some (snd vp) /\
+                         forall r' g', (r' < r)%nat -> M_mpe.cell Fn r' c = Some (Some g') -> ~ g' == f) freq vals.
+Proof. exact (@extract_exact). Qed.
+
+(* (14a') the same with the rows named: f_j occurs in column c at row r_j only => exactly the cells (r_j, c) are returned *)
+Theorem C01_extract_returns_true_modes_rows : forall (P:Type) n m (Fn:M_mpe.tab) (Pay:list (list P)) c freq rows rtol,
+  M_mpe.rect n m Fn -> M_mpe.rect n m Pay -> 0 <= rtol ->
+  Forall2 (fun f r => exists g, M_mpe.cell Fn r c = Some (Some g) /\ g == f /\
+             forall r' g', M_mpe.cell Fn r' c = Some (Some g') -> g' == f -> r' = r) freq rows ->
+  exists vals, M_mpe.mpe_explicit Fn Pay freq (M_mpe.OInt c) rtol = M_mpe.Ok (vals, M_mpe.OutInt c) /\
+    Forall2 (fun r vp => M_mpe.cell Fn r c = Some (Some (fst vp)) /\ M_mpe.cell Pay r c = Some (snd vp)) rows vals.
+Proof. exact (@extract_exact_rows). Qed.
+
+(* (14b) ROBUST identification: the identified frequency g_j (row r_j of column c) is within eps_j of the request f_j, every OTHER
+   retained cell of that column is farther than eps_j from f_j (separation), and eps_j <= 1e-8 + rtol |f_j| (isclose margin).
+   Then the routine raises nothing and returns exactly the cells (r_j, c), in request order. *)
+Theorem C01_extract_robust : forall (P:Type) n m (Fn:M_mpe.tab) (Pay:list (list P)) c freq rows rtol,
+  M_mpe.rect n m Fn -> M_mpe.rect n m Pay ->
+  Forall2 (fun f r => exists g eps, M_mpe.cell Fn r c = Some (Some g) /\ Qabs.Qabs (g - f) <= eps /\
+             (forall r' g', r' <> r -> M_mpe.cell Fn r' c = Some (Some g') -> eps < Qabs.Qabs (g' - f)) /\
+             eps <= M_mpe.atol + rtol * Qabs.Qabs f) freq rows ->
+  exists vals, M_mpe.mpe_explicit Fn Pay freq (M_mpe.OInt c) rtol = M_mpe.Ok (vals, M_mpe.OutInt c) /\
+    Forall2 (fun r vp => M_mpe.cell Fn r c = Some (Some (fst vp)) /\ M_mpe.cell Pay r c = Some (snd vp)) rows vals.
+Proof. exact (@extract_robust). Qed.
+
+(* the common core of (14a), (14b): row r_j holds the retained pole of column c nearest to f_j (first row on ties, P_compose.nearest_row)
+   and that pole is inside the isclose margin *)
+Theorem C01_extract_nearest : forall (P:Type) n m (Fn:M_mpe.tab) (Pay:list (list P)) c freq rows rtol,
+  M_mpe.rect n m Fn -> M_mpe.rect n m Pay ->
+  Forall2 (fun f r => exists g, nearest_row Fn c f r g /\ Qabs.Qabs (g - f) <= M_mpe.atol + rtol * Qabs.Qabs f) freq rows ->
+  exists vals, M_mpe.mpe_explicit Fn Pay freq (M_mpe.OInt c) rtol = M_mpe.Ok (vals, M_mpe.OutInt c) /\
+    Forall2 (fun r vp => M_mpe.cell Fn r c = Some (Some (fst vp)) /\ M_mpe.cell Pay r c = Some (snd vp)) rows vals.
+Proof. exact (@extract_core). Qed.
+
+(* (14c) on the pole table of (9).  Cell type X with projections fnof : X -> Q (frequency) and payof : X -> P (damping, shape ...);
+   Fn = fn_table fnof (pole_table ordmax per), Pay = pay_table payof (pole_table ordmax per) (payload of a NaN cell = None).
+   If the pole list of order c is a rearrangement of the true mode list (what (13) gives for the spectrum), then whatever true
+   frequencies are requested, extraction at order c returns for each of them frequency and payload of ONE true mode of that
+   frequency (the one listed first at order c), and raises nothing. *)
+Theorem C01_extract_pole_table : forall (X P:Type) (fnof:X -> Q) (payof:X -> P) ordmax (per:nat -> list X) c (truth:list X) freq rtol,
+  (0 < c <= ordmax)%nat -> (length (per c) <= ordmax)%nat -> 0 <= rtol ->
+  Permutation (per c) truth ->
+  Forall (fun f => exists x, In x truth /\ fnof x == f) freq ->
+  exists vals,
+    M_mpe.mpe_explicit (fn_table fnof (pole_table ordmax per)) (pay_table payof (pole_table ordmax per)) freq (M_mpe.OInt c) rtol
+      = M_mpe.Ok (vals, M_mpe.OutInt c) /\
+    Forall2 (fun f vp => exists y, In y truth /\ fnof y == f /\ vp = (fnof y, Some (payof y))) freq vals.
+Proof. exact (@extract_pole_table). Qed.
+
+(* requesting the frequencies of a list of true modes: every answer carries the frequency of its mode and a payload [same] as
+   that of the mode, provided true modes of equal frequency have [same] payloads.  (At order 2m every mode is listed twice, as a
+   conjugate pair with equal fn and xi and conjugate shapes: [same] = equal xi, shapes equal up to conjugation.  With pairwise
+   different frequencies [same] can be Leibniz equality.) *)
+Theorem C01_extract_pole_table_modes : forall (X P:Type) (fnof:X -> Q) (payof:X -> P) (same:P -> P -> Prop) ordmax (per:nat -> list X) c
+    (truth modes:list X) rtol,
+  (0 < c <= ordmax)%nat -> (length (per c) <= ordmax)%nat -> 0 <= rtol ->
+  Permutation (per c) truth ->
+  (forall x, In x modes -> In x truth) ->
+  (forall x y, In x truth -> In y truth -> fnof y == fnof x -> same (payof y) (payof x)) ->
+  exists vals,
+    M_mpe.mpe_explicit (fn_table fnof (pole_table ordmax per)) (pay_table payof (pole_table ordmax per)) (map fnof modes) (M_mpe.OInt c) rtol
+      = M_mpe.Ok (vals, M_mpe.OutInt c) /\
+    Forall2 (fun x vp => fst vp == fnof x /\ exists p, snd vp = Some p /\ same p (payof x)) modes vals.
+Proof. exact (@extract_pole_table_modes). Qed.
+
+(* (14d) (13) and (14c) chained.  Under the hypotheses of C01_multiplicity (true system with a complete modal basis and pairwise
+   different poles lam_0 .. lam_{n-1}; eigen-solver contract on the identified A_hat with eigenvalues d_0 .. d_{n-1}), let column n of
+   the pole table hold g(d_0) .. g(d_{n-1}) for ANY pole-wise map g into a cell type X (ac2mp: pole -> frequency, damping) read by
+   fnof / payof.  Then requesting true frequencies fnof (g (lam i)) at order n returns, for each request, frequency and payload
+   computed from a TRUE pole lam_i of that frequency; nothing else, no exception. *)
+Section MX.
+Variable R:Type. Variable K:Ops R.
+Hypothesis Rth : ring_theory (o0 K) (o1 K) (oadd K) (omul K) (osub K) (oopp K) (@eq R).
+Hypothesis Hint : forall a b:R, omul K a b = o0 K -> a = o0 K \/ b = o0 K.
+Hypothesis H10 : o1 K <> o0 K.
+Hypothesis Rdec : forall x y:R, {x = y} + {x <> y}.
+Hypothesis Hreal : forall a b:R, oadd K (omul K a a) (omul K b b) = o0 K -> a = o0 K.
+
+Theorem C01_identify_then_extract : forall l n (A Cm Ah Ch T Ti:fmat R) (Phi Phii V W:fmat (Cplx.C R)) (lam d:nat -> Cplx.C R),
+  similar_pair R K l n A Cm Ah Ch T Ti ->
+  feq n n (fmul (COps K) n (cemb R K A) Phi) (fmul (COps K) n Phi (fdiag (COps K) lam)) ->
+  feq n n (fmul (COps K) n Phi Phii) (fid (COps K)) -> feq n n (fmul (COps K) n Phii Phi) (fid (COps K)) ->
+  (forall i j, (i < n)%nat -> (j < n)%nat -> i <> j -> lam i <> lam j) ->
+  feq n n (fmul (COps K) n (cemb R K Ah) V) (fmul (COps K) n V (fdiag (COps K) d)) ->
+  feq n n (fmul (COps K) n W V) (fid (COps K)) ->
+  forall (X P:Type) (g:Cplx.C R -> X) (fnof:X -> Q) (payof:X -> P) ordmax (per:nat -> list X) freq rtol,
+  (0 < n <= ordmax)%nat -> 0 <= rtol ->
+  per n = map g (tab n d) ->
+  Forall (fun f => exists i, (i < n)%nat /\ fnof (g (lam i)) == f) freq ->
+  exists vals,
+    M_mpe.mpe_explicit (fn_table fnof (pole_table ordmax per)) (pay_table payof (pole_table ordmax per)) freq (M_mpe.OInt n) rtol
+      = M_mpe.Ok (vals, M_mpe.OutInt n) /\
+    Forall2 (fun f vp => exists i, (i < n)%nat /\ fnof (g (lam i)) == f /\ vp = (fnof (g (lam i)), Some (payof (g (lam i))))) freq vals.
+Proof.
+  intros l n A Cm Ah Ch T Ti Phi Phii V W lam d Hs H1 H2 H3 H4 H5 H6 X P g fnof payof ordmax per freq rtol Hn Hrt Hper Hall.
+  destruct (C01_multiplicity R K Rth Hint H10 Rdec Hreal l n A Cm Ah Ch T Ti Phi Phii V W lam d Hs H1 H2 H3 H4 H5 H6) as [Hperm _].
+  destruct (extract_pole_table_spectrum g fnof payof ordmax per n (tab n d) (tab n lam) freq rtol Hn) as (vals & Hv & H).
+  - rewrite tab_length. lia.
+  - exact Hrt.
+  - exact Hper.
+  - exact Hperm.
+  - eapply Forall_impl; [|exact Hall]. intros f (i & Hi & Hf). exists (lam i). split; [|exact Hf].
+    unfold tab. apply in_map. apply in_seq. lia.
+  - exists vals. split; [exact Hv|]. eapply P_mpe.F2_impl; [|exact H].
+    intros f vp (z & Hz & Hf & Hvp). unfold tab in Hz. apply in_map_iff in Hz. destruct Hz as (i & <- & Hi).
+    apply in_seq in Hi. exists i. split; [lia|]. split; [exact Hf|exact Hvp].
+Qed.
+End MX.
+
+(* What (14) does NOT cover.  M_mpe is a model over Q, so (14) speaks about tables whose stored frequencies are rationals; the
+   identification results at the real numbers ((11), (12): fn = w / 2 pi, irrational in general) are not chained to it - that needs
+   M_mpe / P_mpe restated over an ordered field (the proofs use only |.|, <=, < and linear arithmetic).  (14d) carries the
+   pole-wise quantities (frequency, damping) through g; for the SHAPE component of a cell one more step is needed: column k of
+   C_hat V is a non-zero multiple of the true shape (third conclusion of (13)) and unity normalisation cancels the factor ((10),
+   C01_unity_norm_scale), so a cell type X with shapes needs per n indexed by k rather than by the pole alone.  order = "find_min"
+   and order lists are C11's. *)
+
+Print Assumptions C01_extract_returns_true_modes.
+Print Assumptions C01_extract_returns_true_modes_rows.
+Print Assumptions C01_extract_robust.
+Print Assumptions C01_extract_nearest.
+Print Assumptions C01_extract_pole_table.
+Print Assumptions C01_extract_pole_table_modes.
+Print Assumptions C01_identify_then_extract.
+
+(* non-vacuity (4): a 3 x 3 frequency table with a NaN cell (P_compose.cx_Fn; payload = cell identifier 3*row + column).
+   Order 2 holds the true 5 and 10 (5 twice): hypotheses of (14a) hold; 5 -> first row holding it (row 1, cell 5), 10 -> row 0 (cell 2).
+   Order 1 holds 5.000000125, 7.5, 10: hypotheses of (14b) hold with rows [0; 2]; exactly the cells 1 and 7 are returned. *)
+Example C01_example_extract_exact :
+  (M_mpe.rect 3 3 cx_Fn /\ M_mpe.rect 3 3 cx_Pay /\ 0 <= 1#100 /\
+   Forall (fun f => exists r g, M_mpe.cell cx_Fn r 2 = Some (Some g) /\ g == f) [5#1; 10#1]) /\
+  M_mpe.mpe_explicit cx_Fn cx_Pay [5#1; 10#1] (M_mpe.OInt 2) (1#100) = M_mpe.Ok ([(5#1, 5%nat); (10#1, 2%nat)], M_mpe.OutInt 2).
+Proof. split; [exact cx_exact_hyps|vm_compute; reflexivity]. Qed.
+Example C01_example_extract_robust :
+  Forall2 (fun f r => exists g eps, M_mpe.cell cx_Fn r 1 = Some (Some g) /\ Qabs.Qabs (g - f) <= eps /\
+             (forall r' g', r' <> r -> M_mpe.cell cx_Fn r' 1 = Some (Some g') -> eps < Qabs.Qabs (g' - f)) /\
+             eps <= M_mpe.atol + (1#100) * Qabs.Qabs f) [5#1; 10#1] [0%nat; 2%nat] /\
+  M_mpe.mpe_explicit cx_Fn cx_Pay [5#1; 10#1] (M_mpe.OInt 1) (1#100)
+    = M_mpe.Ok ([(40000001#8000000, 1%nat); (10#1, 7%nat)], M_mpe.OutInt 1).
+Proof. split; [exact cx_robust_hyps|vm_compute; reflexivity]. Qed.
+(* non-vacuity (5): pole_table 3 cx_per with cells (fn, xi); order 2 lists the two true modes in the other order; hypotheses of (14c)
+   hold and extraction at order 2 with rtol = 0 returns (5, xi = 1/50), (10, xi = 1/100) *)
+Example C01_example_extract_pole_table :
+  ((0 < 2 <= 3)%nat /\ (length (cx_per 2) <= 3)%nat /\ 0 <= 0 /\
+   Permutation (cx_per 2) [(5#1, 1#50); (10#1, 1#100)] /\
+   Forall (fun f => exists x, In x [(5#1, 1#50); (10#1, 1#100)] /\ fst x == f) [5#1; 10#1]) /\
+  M_mpe.mpe_explicit (fn_table fst (pole_table 3 cx_per)) (pay_table snd (pole_table 3 cx_per)) [5#1; 10#1] (M_mpe.OInt 2) 0
+    = M_mpe.Ok ([(5#1, Some (1#50)); (10#1, Some (1#100))], M_mpe.OutInt 2).
+Proof. split; [exact cx_pole_hyps|vm_compute; reflexivity]. Qed.
